@@ -21,6 +21,7 @@ import (
 	"fmt"
 	"io"
 	"strings"
+	"unicode/utf8"
 )
 
 type token int
@@ -378,6 +379,14 @@ func (t *tokenizer) ReadValue(tok token) (string, error) {
 
 	if err != nil {
 		return "", err
+	}
+
+	switch tok {
+	case tokenSymbolQuoted, tokenString, tokenLongString:
+		// Ion text is UTF-8; the binary reader applies the same check to string values.
+		if !utf8.ValidString(str) {
+			return "", &UnexpectedTokenError{"text contains non-UTF-8 bytes", t.pos - 1}
+		}
 	}
 
 	t.unfinished = false
